@@ -252,7 +252,7 @@ def c01_segment2(c1: int, c2: int, cb: bool, sh: int) -> str:
     return _segmented(sh, cb, [c1, c2])
 
 
-@cond(thorough=dict(parts=[{'sh': s} for s in rc.SHAPES], budget=900))
+@cond(thorough=dict(parts=[{'sh': s, 'cb': b} for s in rc.SHAPES for b in (False, True)], budget=1200))
 def c01_segment3(c1: int, c2: int, c3: int, cb: bool, sh: int) -> str:
     """three cut points"""
     assume(0 <= c1 <= c2 <= c3)
